@@ -238,21 +238,24 @@ def rule_rank_one(repo, rep):
       avs = set()
       lp = pm.get(n)
       vn = None
+      loopvars = set()
       if isinstance(lp, ast.For):
-        tg_ = lp.target
-        if isinstance(tg_, ast.Tuple) and tg_.elts and \
-                isinstance(tg_.elts[-1], ast.Name):
-          vn = tg_.elts[-1].id
-        elif isinstance(tg_, ast.Name):
-          vn = tg_.id
+        loopvars = set(x.id for x in ast.walk(lp.target)
+                       if isinstance(x, ast.Name))
+      other_defs = set()
       for s in blk:
-        if isinstance(s, ast.Assign) and isinstance(s.targets[0], ast.Name) \
-                and vn and ast.unparse(s.value) in (
-                    '%s.dot(%s)' % (A, vn), 'np.dot(%s, %s)' % (A, vn),
-                    '%s @ %s' % (A, vn)):
-          avs.add(s.targets[0].id)
+        if isinstance(s, ast.Assign) and isinstance(s.targets[0], ast.Name):
+          txt_ = ast.unparse(s.value)
+          if any(txt_ in ('%s.dot(%s)' % (A, v_), 'np.dot(%s, %s)' % (A, v_),
+                          '%s @ %s' % (A, v_)) for v_ in loopvars):
+            avs.add(s.targets[0].id)
+          elif s.targets[0].id in cand:
+            other_defs.add(s.targets[0].id)
       if avs and sum(1 for x in cand if x in avs) == 2:
         good = True
+      elif not loopvars or not (set(cand) & other_defs):
+        # the vector of the update could not be traced to <A>.dot(<row>)
+        outer_form = False
     if good:
       rep.derived(R, key, site(f, n),
                   sample=dict(rule=R, update=ast.unparse(n)))
